@@ -199,7 +199,9 @@ class _MetaAbstractArray(type):
             # numpy structured array is strictly a subtype of np.void
             if _dtype_is_numpy_struct_array(obj.dtype):
                 dtype = str(obj.dtype)
-        elif hasattr(obj.dtype, "as_numpy_dtype"):
+        elif hasattr(obj.dtype, "as_numpy_dtype") and hasattr(
+            obj.dtype.as_numpy_dtype, "__name__"
+        ):
             # TensorFlow
             dtype = obj.dtype.as_numpy_dtype.__name__
         else:
